@@ -2,6 +2,7 @@
 import json
 import os
 
+import code_tie
 import vlib
 from vlib import coq_N, coq_Z, coq_str
 
@@ -20,6 +21,7 @@ META = {
 MODEL = ["theories/Sni/WireCorr.vo"]          # needed to evaluate the model
 PROOFS = ["theories/Props/C13.vo", "theories/Sni/WireLegacy.vo"]
 STATEMENT_FILES = ["theories/Props/C13.v", "theories/Sni/WireGen.v", "theories/Sni/WireLegacy.v"]
+SEMANTIC_TIE = code_tie.functions("C13")   # Go bodies proved equal to the model (Props/C13Code.v)
 
 ERRCODE = {"ok": 0, "eof": 1, "tail": 2, "toolong": 3}
 SHAPES = {"one": 1, "half": 2, "dataerr": 3, "zero": 4, "chunk7": 5, "one+dataerr": 6}
@@ -327,6 +329,7 @@ def run(ck):
             ck.discharged = list(ck.obligations)
     if ck.thorough and proofs_ok:
         ck.coqchk(["Verif.Props.C13"])
+    code_tie.run(ck, "C13")
 
     binp = ck.build_harness("c13")
     model_ok = all(built.get(x) for x in MODEL)
